@@ -385,7 +385,7 @@ type eco struct {
 // opIndex is the controller's coalesce step on given per-ecosystem artifacts:
 // every coalescer, MergeSR into a report initialised as controller.New does,
 // the whiteout resolver, IndexRecords.
-func opIndex(r *hx.Run, layers []string, ecos []eco) {
+func opIndex(r *hx.Run, layers []string, ecos []eco) (string, []*claircore.IndexReport) {
 	parts := make([]string, 0, len(ecos))
 	for _, e := range ecos {
 		parts = append(parts, e.Kind+"="+encArts(e.Arts))
@@ -396,8 +396,8 @@ func opIndex(r *hx.Run, layers []string, ecos []eco) {
 	}
 	op := strings.TrimSpace("idx " + ls + " " + strings.Join(parts, " "))
 	var final *claircore.IndexReport
+	var reports []*claircore.IndexReport
 	out := hx.Guard(func() string {
-		var reports []*claircore.IndexReport
 		for _, e := range ecos {
 			ir, o := realCoalesce(r, e.Kind, e.Arts)
 			if ir == nil {
@@ -459,7 +459,107 @@ func opIndex(r *hx.Run, layers []string, ecos []eco) {
 				seen[l] = true
 			}
 		}
+		countResolver(r, layers, final, reports)
 	}
+	return out, reports
+}
+
+// countResolver: which branches of Resolve / layerSorter.isChildOf a case reached.
+func countResolver(r *hx.Run, layers []string, final *claircore.IndexReport, reports []*claircore.IndexReport) {
+	idx := map[string]int{}
+	for i, l := range layers {
+		idx[l] = i
+	}
+	merged := map[string][]*claircore.Environment{}
+	pk := map[string]*claircore.Package{}
+	files := map[string]claircore.File{}
+	for _, rep := range reports {
+		for id, es := range rep.Environments {
+			merged[id] = append(merged[id], es...)
+		}
+		for id, p := range rep.Packages {
+			pk[id] = p
+		}
+		for h, f := range rep.Files {
+			files[nameOf(h)] = f
+		}
+	}
+	for id, es := range merged {
+		if len(es) > 1 {
+			same := true
+			for _, e := range es {
+				if e.IntroducedIn.String() != es[0].IntroducedIn.String() {
+					same = false
+				}
+			}
+			if !same {
+				r.Count("branch:resolver:package-layer-chosen-among-several")
+			}
+		}
+		for _, e := range es {
+			if _, ok := idx[nameOf(e.IntroducedIn.String())]; !ok {
+				r.Count("branch:resolver:package-layer-not-in-manifest(index 0)")
+			}
+		}
+		if _, kept := final.Packages[id]; !kept {
+			r.Count("branch:resolver:package-deleted")
+		}
+	}
+	for h, f := range files {
+		if _, ok := idx[h]; !ok {
+			r.Count("branch:resolver:whiteout-layer-not-in-manifest(index 0)")
+		}
+		if f.Kind != claircore.FileKindWhiteout {
+			r.Count("branch:resolver:file-of-another-kind")
+		}
+		for id, es := range merged {
+			if len(es) == 0 || pk[id] == nil {
+				continue
+			}
+			hit := whiteout.FileIsDeletedForVerif(pk[id].Filepath, f.Path)
+			after := false
+			for _, e := range es {
+				if idx[h] > idx[nameOf(e.IntroducedIn.String())] {
+					after = true
+				}
+			}
+			switch {
+			case hit && !after:
+				r.Count("branch:resolver:covering-whiteout-not-after-the-package")
+			case hit && after:
+				r.Count("branch:resolver:covering-whiteout-after-some-environment")
+			}
+		}
+	}
+}
+
+// compatibleReports: no two reports store different values under one key (hypothesis `Compatible` of
+// mergesr_order_independent_partial; PackageDB of the Package object aside, which the linux coalescer
+// itself picks in map order).
+func compatibleReports(reps []*claircore.IndexReport) bool {
+	pk, ds, rs, fs := map[string]string{}, map[string]string{}, map[string]string{}, map[string]string{}
+	ok := true
+	put := func(m map[string]string, k, v string) {
+		if old, seen := m[k]; seen && old != v {
+			ok = false
+		}
+		m[k] = v
+	}
+	for _, rep := range reps {
+		for id, p := range rep.Packages {
+			put(pk, id, strings.Join([]string{p.ID, p.Name, p.Version, p.Kind, p.Arch, srcName(p), p.Filepath}, "~"))
+		}
+		for id, d := range rep.Distributions {
+			put(ds, id, d.ID+"~"+d.DID)
+		}
+		for id, x := range rep.Repositories {
+			put(rs, id, strings.Join([]string{x.ID, x.Name, x.Key, x.URI}, "~"))
+		}
+		for h, f := range rep.Files {
+			put(fs, h, f.Path+"~"+string(f.Kind))
+		}
+	}
+	return ok
 }
 
 // ---- direct checks of the theorem statements on the real outputs ----
@@ -847,7 +947,30 @@ func runPure(r *hx.Run, cfg hx.Config, rnd *hx.Rand) {
 			// the resolver given a different layer list than the artifacts (missing hash -> index 0)
 			layers = hs[:rnd.Intn(len(hs))]
 		}
-		opIndex(r, layers, ecos)
+		out, reps := opIndex(r, layers, ecos)
+		// MergeSR receives the reports in goroutine completion order: any other order of the ecosystems
+		if len(ecos) > 1 && rnd.Chance(1, 2) {
+			perm := append([]eco(nil), ecos...)
+			for k := len(perm) - 1; k > 0; k-- {
+				j := rnd.Intn(k + 1)
+				perm[k], perm[j] = perm[j], perm[k]
+			}
+			out2, _ := opIndex(r, layers, perm)
+			r.Count("idx:permuted")
+			switch {
+			case out == out2:
+			case compatibleReports(reps):
+				r.Fail("", fmt.Sprintf("MergeSR order: compatible coalescer reports, but the finished report depends on their order: %s vs %s; layers=%v ecosystems=%v", out, out2, layers, func() []string {
+					var xs []string
+					for _, e := range ecos {
+						xs = append(xs, e.Kind+"="+encArts(e.Arts))
+					}
+					return xs
+				}()))
+			default:
+				r.Count("idx:permuted:report-differs(reports not Compatible)")
+			}
+		}
 	}
 
 	// fileIsDeleted and the path functions
